@@ -287,3 +287,99 @@ def check_pbkdf2(ctx, P, rule="shape-eval"):
         for pre in ("pbkdf2-blocklen", "pbkdf2-u1", "pbkdf2-u2", "pbkdf2-uj", "pbkdf2-xor", "pbkdf2-order"):
             ctx.subsume(pre, why)
     return ok
+
+
+# ------------------------------------------------------------------------------------------------ HKDF over an uninterpreted digest
+def check_hkdf(ctx, P, rule="shape-eval"):
+    """hkdf_extract / hkdf_expand (RFC 5869) with an uninterpreted digest that arrives WITH history (a non-empty transcript:
+    the functions must reset it): PRK = HMAC(salt, IKM);  OKM = T(1) || T(2) || ... truncated,
+    T(i) = HMAC(PRK, T(i-1) || info || i).  Hmac itself is evaluated from its own code (decided separately by check_hmac)."""
+    global BS, OS
+    fx = P.fn_opt("hkdf::hkdf_extract")
+    fe = P.fn_opt("hkdf::hkdf_expand")
+    if fx is None or fe is None:
+        ctx.lost(rule, "hkdf", "hkdf_extract / hkdf_expand not found")
+        return False
+    sizes, big = size_sets(P, [fx, fe], r"^(hkdf|hmac)::")
+    bad = []
+    n = 0
+    shapes = []
+    for bs_, os_ in sizes[:4]:
+        for kl in sorted({0, 1, os_, bs_, bs_ + 2}):
+            for il in (0, 1, 3):
+                for ol in range(0, 3 * os_ + 2):
+                    shapes.append((bs_, os_, kl, il, ol))
+    for bs_, os_, kl, il, ol in shapes:
+        BS, OS = bs_, os_
+        B = simd.TermBank()
+        fam = {}
+        prk = [B.inp("prk[%d]" % i, 8) for i in range(kl)]
+        info = [B.inp("info[%d]" % i, 8) for i in range(il)]
+        out = {i: B.inp("okm0[%d]" % i, 8) for i in range(ol)}
+        d = UFDigest(B, fam)
+        d.tr = [B.inp("history[0]", 8), B.inp("history[1]", 8)]
+        M = simd.Machine(P, B, 64, {}, maxsteps=800000)
+        M.hooks = digest_hooks(B)
+        try:
+            M.call_fn(fe, [{"_digest": d}, ("aslice", {i: prk[i] for i in range(kl)}, 0, kl), ("aslice", {i: info[i] for i in range(il)}, 0, il), ("aslice", out, 0, ol)])
+        except Bad as e:
+            bad.append(("expand", (bs_, os_), kl, il, ol, str(e)))
+            if len(bad) > 3:
+                break
+            continue
+        except (simd.Unsupported, KeyError, IndexError, TypeError, AttributeError, ValueError) as e:
+            bad.append(("expand", (bs_, os_), kl, il, ol, "not evaluable: %s: %s" % (type(e).__name__, str(e)[:100])))
+            break
+        n += 1
+        want = []
+        t = []
+        i = 0
+        while len(want) < ol:
+            i += 1
+            t = spec_hmac(B, fam, prk, list(t) + info + [B.const(i & 0xff, 8)])
+            want += t
+        got = [M.scalar_bits(out[k], 8) for k in range(ol)]
+        if got != want[:ol]:
+            k = [x for x in range(ol) if got[x] != want[x]][0]
+            bad.append(("expand", (bs_, os_), kl, il, ol, "OKM byte %d is not byte %d of T(1) || T(2) || ... with T(i) = HMAC(PRK, T(i-1) || info || i)" % (k, k)))
+            if len(bad) > 3:
+                break
+    n_exp = n
+    # extract
+    xs = []
+    for bs_, os_ in sizes[:4]:
+        for sl in sorted({0, 1, bs_, bs_ + 1}):
+            for kl in (0, 1, bs_ + 3):
+                xs.append((bs_, os_, sl, kl))
+    nx = 0
+    for bs_, os_, sl, kl in xs:
+        BS, OS = bs_, os_
+        B = simd.TermBank()
+        fam = {}
+        salt = [B.inp("salt[%d]" % i, 8) for i in range(sl)]
+        ikm = [B.inp("ikm[%d]" % i, 8) for i in range(kl)]
+        out = {i: B.inp("prk0[%d]" % i, 8) for i in range(os_)}
+        d = UFDigest(B, fam)
+        d.tr = [B.inp("history[0]", 8)]
+        M = simd.Machine(P, B, 64, {}, maxsteps=800000)
+        M.hooks = digest_hooks(B)
+        try:
+            M.call_fn(fx, [{"_digest": d}, ("aslice", {i: salt[i] for i in range(sl)}, 0, sl), ("aslice", {i: ikm[i] for i in range(kl)}, 0, kl), ("aslice", out, 0, os_)])
+        except Bad as e:
+            bad.append(("extract", (bs_, os_), sl, kl, str(e)))
+            continue
+        except (simd.Unsupported, KeyError, IndexError, TypeError, AttributeError, ValueError) as e:
+            bad.append(("extract", (bs_, os_), sl, kl, "not evaluable: %s: %s" % (type(e).__name__, str(e)[:100])))
+            break
+        nx += 1
+        if [M.scalar_bits(out[k], 8) for k in range(os_)] != spec_hmac(B, fam, salt, ikm):
+            bad.append(("extract", (bs_, os_), sl, kl, "PRK is not HMAC(salt, IKM)"))
+    BS, OS = 8, 4
+    ok = not bad and n_exp == len(shapes) and nx == len(xs)
+    ctx.check(ok, rule, "hkdf", "%d expand shapes (PRK / info / OKM lengths) and %d extract shapes with an uninterpreted digest that arrives with history: RFC 5869's terms" % (n_exp, nx),
+              "hkdf_extract / hkdf_expand are not RFC 5869 over their digest: %s" % bad[:3], where=fe.where(), key="%s:hkdf" % rule)
+    if ok and not big:
+        why = "hkdf_extract / hkdf_expand are decided against RFC 5869 with an uninterpreted digest for %d shapes (shape-eval)" % (n_exp + nx)
+        for pre in ("hkdf-order", "hkdf-chunks", "hkdf-fresh", "hkdf-extract", "hkdf:"):
+            ctx.subsume(pre, why)
+    return ok
